@@ -26,7 +26,8 @@ FAMILIES = {
 NULLABLE = {'Int64', 'UInt8', 'float64', 'float32', 'Float64', 'boolean', 'object-bool', 'object-str', 'string',
             'category', 'category-unused', 'datetime64[ns]', 'datetime64[us]', 'datetime64[ms]', 'datetime64[s]', 'datetime-tz',
             'object-date', 'str'}
-STR_POOL = ['a', 'b', 'abc', 'ab', 'AB', '', ' ', 'x y', 'abc\n', '#tag', 'ab1', 'été', '日本', 'a1', '12', 'id-7', 'id-12', 'Zed', 'zed',
+STR_POOL = ['a', 'b', 'abc', 'ab', 'AB', '', ' ', 'x y', 'abc\n', '#tag', 'ab1', 'l\u2028s', 'n\u0085l', 'p\u2029q',
+            'NA', 'n/a', 'null', 'None', 'e\u0301', '\u212b', 'été', '日本', 'a1', '12', 'id-7', 'id-12', 'Zed', 'zed',
             "it's", 'q"t', 'back\\slash', 'line\nbreak', 'tab\t', 'é', 'ß', '٣', '²', 'a.b', '^-', 'foo', 'bar']
 FLOAT_POOL = [0.0, 1.0, -1.0, 0.5, -0.5, 2.25, 100.0, -100.0, 1e10, -1e10, 0.125, 3.0, 7.0, -7.0, 1e-3 * 1024,
               123456.75, -0.0, 100000.375, 2.0000019073486328, 10000000000.5, 4.0, 12.0]
@@ -128,6 +129,12 @@ def gen_frame(rng, fams=None, maxrows=10, maxcols=3):
     for j in range(ncol):
         fam = rng.choice(fams)
         cols.append({'name': rng.choice(NAME_POOL) + str(j), 'fam': fam, 'cells': gen_cells(rng, fam, n)})
+    if sfams and not codes and rng.random() < 0.04 and n >= 3:
+        # shapes that continue one another: a shorter shape ends where a constant fragment of a longer one stands
+        fam = rng.choice(sfams)
+        pool = rng.choice([['id:', 'id:1', 'id:22', 'id:333'], ['ab-', 'ef-12', 'gh-7', 'xy-'], ['ID:7', 'ID:7 (old)', 'ID:8'],
+                           ['AB-12', 'AB-12 x', 'CD-34']])
+        cols[0] = {'name': cols[0]['name'], 'fam': fam, 'cells': [rng.choice(pool) for _ in range(n)]}
     if codes:
         cells = codes + [rng.choice(codes + [None]) for _ in range(n - len(codes))]
         rng.shuffle(cells)
